@@ -51,6 +51,21 @@ def gen(tier, rng, own=()):
             for _ in range(10 if tier == "quick" else 60):
                 m = bytearray(st); m[rng.randrange(len(st))] = rng.randrange(256)
                 runs(bytes(m), mode, {"family": "byte-substitution", "parent": name}, cpus)
+    # (b2) every output-buffer size, one-shot: a valid stream with too little room must be reported as overflow (or decoded), never as invalid
+    tiny = []
+    for toks in ([("lit", 97), ("match", 3, 1)], [("lit", 97), ("lit", 98), ("lit", 99), ("lit", 100), ("match", 3, 4)], [("lit", 97), ("match", 3, 1), ("lit", 98), ("match", 4, 2), ("lit", 99), ("lit", 99), ("match", 3, 1)],
+                 [("lit", 120), ("lit", 121), ("match", 258, 2), ("lit", 122), ("match", 5, 1)]):
+        for depth in (3, 4):     # short codes: decoders with multi-symbol lookup entries pack 'literal(s) + length' into one entry
+            bw = defgen.BitWriter(); defgen.dyn_block(bw, rng, toks, False, maxdepth=depth, rle="plain"); defgen.stored_block(bw, [], True); tiny.append(("packed-%d-%d" % (len(toks), depth), bw.done()))
+    for name, raw in list(parents) + tiny:
+        plain = inflfam.py_inflate(raw)
+        for ao in range(0, len(plain) + 2):
+            for cpu in (inflfam.KERNEL_CPUS if name.startswith("packed") else [inflfam.KERNEL_CPUS[ao % 3]]):
+                scns.append(igz.scenario(len(scns), "inflate_stateless", list(raw), wrap=0, calls=[[len(raw), ao, 0, 0]], tail_ai=len(raw), tail_ao=ao, cap=4, mem=ao % 3, prefill=ao % 3,
+                                         meta={"family": "one-shot-every-output-size", "parent": name, "cpu": cpu, "complete_supply": True}))
+                if name.startswith("packed"):
+                    scns.append(igz.scenario(len(scns), "inflate", list(raw), wrap=0, calls=[[len(raw), ao, 0, 0]], tail_ai=len(raw), tail_ao=1, cap=4000, mem=ao % 3, prefill=ao % 3,
+                                             meta={"family": "one-shot-every-output-size", "parent": name, "cpu": cpu, "complete_supply": True}))
     # (c) grammar-level single faults with the documented error class
     for fault, cls in defgen.FAULTS.items():
         for rep in range(2 if tier == "quick" else 8):
